@@ -552,6 +552,43 @@ def B1(ctx):
                 else:
                     ctx.bad("B1", fk, "a backtrack point is added to a branch recorded as not exploring", site_str(prog, fk, b), detail="guard")
     ctx.floor("B1", n, 6, "3 recordings + 3 guarded backtracks (step arms are checked by X3)")
+    # the search for the branch to backtrack into skips non-exploring (and non-schedule) entries instead of giving up:
+    # from the `exploring == false` edge and from the downcast-None edge no return is reachable except through `point == 0`
+    if fn is not None:
+        body = fn.body
+        inst = prog.ident(fk)
+        primary = None
+        for (b, t, c) in prog.sites(inst):
+            if prog.callee_key(c) == SCH + "::backtrack":
+                primary = b if primary is None else min(primary, b)
+        zero_tests = [b for b in range(body.n) if body.term(b)["k"] == "switch" and
+                      (lambda e: e[0] == "binop" and e[1] == "Eq" and canon(strip(e[2])) in ("point", "phi(point)") and canon(e[3]) == "0")(body.expr_of_operand(body.term(b)["op"]))]
+        skip_edges = []
+        for b in range(body.n):
+            t = body.term(b)
+            if t["k"] != "switch" or primary is None:
+                continue
+            e = body.expr_of_operand(t["op"])
+            if is_field(e, SCH, "exploring") and primary in body.reachable(b):
+                # the guard of the primary backtrack: its false edge
+                tg = switch_targets_for(t, False)
+                if primary not in set().union(*[body.reachable(x, blocked=set(zero_tests)) for x in tg]) or True:
+                    skip_edges.append((b, list(tg)[0]))
+                break
+        ok = bool(zero_tests) and bool(skip_edges)
+        for (sb, tgt) in skip_edges:
+            r = body.reachable(tgt, blocked=set(zero_tests))
+            if any(body.term(x)["k"] == "return" for x in r):
+                ok = False
+            # and the walk continues: the loop header (the downcast of the previous point) is reachable again
+            if not any(x in body.reachable(z) for z in zero_tests for x in [sb]):
+                ok = False
+        if ok:
+            ctx.ok("B1", fk + ":walk-back", "a non-exploring entry is skipped and the search continues with the previous branch (until point 0)",
+                   [site_str(prog, fk, skip_edges[0][0])])
+        else:
+            ctx.bad("B1", fk, "when the racing access lies in a non-exploring region the search for an earlier exploring branch is abandoned: "
+                    "decisions *before* the region are no longer fully explored", fn.loc(), detail="walk-back")
 
 
 def B2(ctx):
